@@ -75,7 +75,21 @@ func watchdog(tier string) time.Duration {
 func RunShards(p *Prop, pc *ParentCtx, extraEnv []string) *Aggregate {
 	agg := NewAggregate()
 
-	outs := make([]childOutcome, NShards)
+	// shards re-run under the 32-bit build of the same monitors (see ./check): a subset in the quick tier
+	var shards386 []int
+
+	if exe := os.Getenv("VMON_EXE_386"); exe != "" && extraEnv == nil && pc.Exe != exe {
+		step := 5
+		if pc.Tier == "thorough" {
+			step = 2
+		}
+
+		for i := int(pc.Seed % uint64(step)); i < NShards; i += step {
+			shards386 = append(shards386, i)
+		}
+	}
+
+	outs := make([]childOutcome, NShards, NShards+len(shards386))
 	sem := make(chan struct{}, max(1, runtime.NumCPU()))
 
 	var wg sync.WaitGroup
@@ -92,12 +106,34 @@ func RunShards(p *Prop, pc *ParentCtx, extraEnv []string) *Aggregate {
 		}(i)
 	}
 
+	for _, i := range shards386 {
+		wg.Add(1)
+
+		outs = append(outs, childOutcome{})
+		slot := len(outs) - 1
+
+		go func(i, slot int) {
+			defer wg.Done()
+			sem <- struct{}{}
+			defer func() { <-sem }()
+
+			sub := *pc
+			sub.Exe = os.Getenv("VMON_EXE_386")
+			outs[slot] = runChildEnv(p, &sub, i, nil, ".386")
+		}(i, slot)
+	}
+
 	wg.Wait()
+
+	if len(shards386) > 0 {
+		agg.Counters["shards-also-run-under-GOARCH=386"] = int64(len(shards386))
+	}
 
 	var fpFiles []string
 
-	for i := range outs {
-		o := outs[i]
+	for idx := range outs {
+		o := outs[idx]
+		i := o.shard
 
 		if o.timed {
 			agg.Incon("shard %d: watchdog fired after %s (log %s)", i, watchdog(pc.Tier), o.log)
